@@ -58,6 +58,8 @@ class P(Prop):
             inp = pg.gen_electric_inputs(rng, plant)
             # the caller hands ONE array object to every component whose series has the same values
             inp["alias"] = rng.random() < 0.3
+            inp["numeric_sts"] = rng.random() < 0.4
+            inp["matrix_api"] = rng.random() < 0.35       # statuses and sharing modes through the [N x n] matrix setters
             for d, ci in zip(plant["comps"], inp["comps"]):
                 if pg.kind_of(d["cls"]) in ("PtiPto", "Storage") and not any(ci["pin"]):
                     ci["set"] = rng.choice(["input", "from_output"])
@@ -183,6 +185,12 @@ class P(Prop):
                 t.append("status-change")
         if inp.get("alias"):
             t.append("equal series handed over as one array object")
+        if inp.get("matrix_api"):
+            t.append("status set through the matrix setters")
+            if any(inp["n"] == sum(1 for d in plant["comps"] if d["swb"] == s_ and pg.kind_of(d["cls"]) == k_) for s_ in plant["swbs"] for k_ in ("Source", "Storage", "PtiPto")):
+                t.append("square status matrix (steps = components of a kind on a switchboard)")
+        if inp.get("numeric_sts") and plant["breakers"]:
+            t.append("breaker status as numeric 0/1 matrix")
         if case.get("inp2") and "second" in obs:
             t.append("second-balance-after-status-change-only")
         if inp.get("sts") and any(inp["sts"][i] != inp["sts"][i - 1] for i in range(1, inp["n"])):
